@@ -11,6 +11,7 @@ R: the well-formed shapes are chained into real data directories and run through
    four files are compared byte for byte with the encoder-side rendering and the completion summary with the row counts;
    boundary sizes (0, 1, 0xfc, 0xfd, 0xffff, 0x10000), counts of 253 / 65536, hundreds of transactions, extreme field values
 """
+import os
 import random
 import re
 
@@ -41,8 +42,14 @@ def run_chain(w, blocks, coin, verify, ck_label, r0=None):
     first = r0.choice([1, 1, 2]) if verify else r0.choice([0, 0, 1])
     first = min(first, len(blocks) - 1)
     end = r0.choice([None, None, None, len(blocks) - 2]) if len(blocks) - 2 > first else None
+    dump = w.mk('out')
+    if r0.random() < 0.3:
+        # leftovers of an interrupted longer run in the dump folder
+        for nme in ('blocks', 'transactions', 'tx_in', 'tx_out'):
+            with open(os.path.join(dump, nme + '.csv.tmp'), 'wb') as f:
+                f.write(b'stale;row;of;an;earlier;run\n' * 200000)
     # the verbosity option must not influence the result either
-    r = run.run_parser(d.path, 'csvdump', dump=w.mk('out'), coin=coin, verify=verify, start=first or None, end=end, timeout=180,
+    r = run.run_parser(d.path, 'csvdump', dump=dump, coin=coin, verify=verify, start=first or None, end=end, timeout=180,
                        verbose=r0.choice([0, 0, 1, 2]))
     lastb = len(blocks) - 1 if end is None else end
     chain = [(h, b) for h, b in enumerate(blocks) if first <= h <= lastb]
@@ -146,7 +153,7 @@ def main(ck, tier, w, pid='C01'):
         coin = r0.choice(allcoins[cls])
         blocks, prev = [], b'\0' * 32
         for h, u in enumerate([us[0]] + us):
-            b = wirerep.mk_block(dict(u, coin=coin), r0, prev=prev, t=r0.randrange(1, 2 ** 32))
+            b = wirerep.mk_block(dict(u, coin=coin), r0, prev=prev, t=r0.randrange(1, 2 ** 32), sizes=wirerep.CHAIN_SIZES[(n + h) % 3])
             blocks.append(b)
             prev = b['hash']
         verify = n % 2 == 1
@@ -228,9 +235,10 @@ def aux_extras(ck, w, seed, quick):
             vcls = r0.choice([0, 1, 2])
             has = coin in wirerep.THRESH and vcls >= 1
             aux = {'cb': {'seg': r0.random() < 0.5, 'ins': ['s'], 'outs': ['s'] * r0.randrange(0, 3), 'wit': [['s'] * r0.randrange(0, 3)]},
-                   'b1': r0.choice([0, 1, 2, 32, 33, 253]), 'b2': r0.choice([0, 1, 2, 32, 33])} if has else {'cb': [], 'b1': -1, 'b2': -1}
+                   'b1': [253, 0, 1, 32, 33, 2][h] if i % 2 == 0 else r0.choice([0, 1, 2, 32, 33, 253]),
+                   'b2': [1, 300, 0, 33, 2, 32][h] if i % 2 == 0 else r0.choice([0, 1, 2, 32, 33])} if has else {'cb': [], 'b1': -1, 'b2': -1}
             rec = {'coin': coin, 'block': {'ver': vcls, 'aux': aux, 'txs': [{'seg': k % 2 == 1, 'ins': ['s'], 'outs': ['s', 's'], 'wit': [['s']]} for k in range(r0.randrange(1, 4))]}}
-            b = wirerep.mk_block(rec, r0, prev=prev, t=r0.randrange(1, 2 ** 32))
+            b = wirerep.mk_block(rec, r0, prev=prev, t=r0.randrange(1, 2 ** 32), sizes=wirerep.CHAIN_SIZES[(i + h) % 3])
             blocks.append(b)
             prev = b['hash']
         probs, r = run_chain(w, blocks, coin, True, 'C12', r0)
